@@ -23,9 +23,10 @@ import tempfile
 from harness import core, gen, histcheck, isoapi
 from harness.props import c01, c05
 
-LEAN_MODULES = ['Pycdlib.Props.C04', 'Pycdlib.Props.C03', 'Pycdlib.Props.TiePack']
+LEAN_MODULES = ['Pycdlib.Props.C04', 'Pycdlib.Props.C03', 'Pycdlib.Props.TiePack', 'Pycdlib.Props.C17Plan']
 THEOREMS = ['Pycdlib.writer_matches_cache', 'Pycdlib.writer_no_straddle', 'Pycdlib.nfScan_append', 'Pycdlib.decDR_encDR',
-            'Pycdlib.dr_recalc_tie', 'Pycdlib.dr_recalc_init_tie']
+            'Pycdlib.dr_recalc_tie', 'Pycdlib.dr_recalc_init_tie',
+            'Pycdlib.InPlace.plan_touches_only', 'Pycdlib.InPlace.pvd_copies_identical', 'Pycdlib.InPlace.refused_iff']
 PARTIAL = {'patch_eq_remaster_partial': 'the offset arithmetic (cached next-fit position = writer position) is proved; equality of the '
            'patched image with a full re-master is decided per case by the oracle'}
 TRUSTED = ['the independent reader; byte diff of the image file before/after']
@@ -36,6 +37,81 @@ LEVEL_TEXT = ('Lean 4 theorem: the byte offset modify_file_in_place derives from
               'decided on the image file by the independent reader and a byte diff.')
 LEVEL_NOTE = 'Trusted: Lean kernel, reader, diff.'
 TECHNIQUE = 'Lean 4 packing proof (cached offset = written offset) + in-place differential on image files'
+
+
+class RecordingFP:
+    """the opened image file with every write noted as (offset, length)"""
+
+    def __init__(self, fp):
+        self.fp = fp
+        self.writes = []
+
+    def write(self, b):
+        self.writes.append((self.fp.tell(), len(b)))
+        return self.fp.write(b)
+
+    def __getattr__(self, name):
+        return getattr(self.fp, name)
+
+
+def merge_writes(ws):
+    out = []
+    for o, ln in sorted((o, ln) for o, ln in ws if ln):
+        if out and out[-1][0] + out[-1][1] >= o:
+            out[-1] = (out[-1][0], max(out[-1][0] + out[-1][1], o + ln) - out[-1][0])
+        else:
+            out.append((o, ln))
+    return ' '.join('%d:%d' % w for w in out)
+
+
+def plan_request(iso, path, new_len):
+    """the inputs of Model/InPlace.plan, read from the opened object before the call"""
+    from pycdlib import dr as drmod, udf as udfmod
+    rec = iso.get_record(iso_path=path)
+    if rec.inode is None:
+        return None
+    recs = []
+    for r, _ in rec.inode.linked_records:
+        if isinstance(r, drmod.DirectoryRecord):
+            recs.append('d:%d:%d:%d:%d' % (r.parent.extent_location(), r.extents_to_here, r.offset_to_here, r.dr_len))
+        elif isinstance(r, udfmod.UDFFileEntry):
+            recs.append('u:%d:%d' % (r.extent_location(), len(r.record())))
+        else:
+            recs.append('b')
+    return 'inplace %s %s %s %d %d %d %d %s' % (
+        ','.join(str(p.extent_location()) for p in iso.pvds),
+        iso.joliet_vd.extent_location() if iso.joliet_vd is not None else '-',
+        iso.enhanced_vd.extent_location() if iso.enhanced_vd is not None else '-',
+        rec.extent_location(), rec.get_data_length(), new_len, 1 if rec.inode.boot_info_table is not None else 0, ' '.join(recs))
+
+
+def modify_recorded(ctx, iso, data, new_len, path, rp):
+    """modify_file_in_place with the writes recorded and compared with the model's plan (theorems plan_touches_only,
+    pvd_copies_identical, refused_iff); exceptions are passed on to the caller"""
+    try:
+        req = plan_request(iso, path, new_len)
+    except Exception:  # noqa
+        req = None
+    rec_fp = RecordingFP(iso._cdfp)
+    iso._cdfp = rec_fp
+    try:
+        try:
+            iso.modify_file_in_place(io.BytesIO(data), new_len, path)
+            impl = merge_writes(rec_fp.writes)
+        except Exception as e:  # noqa
+            impl = 'refused' if (isoapi.exc_class(e) == 'invalidInput' and not rec_fp.writes) else 'raised-after-%d-writes' % len(rec_fp.writes)
+            raise
+    finally:
+        iso._cdfp = rec_fp.fp
+        if req is not None:
+            ans = ctx.driver.ask([req])[0]
+            model = ans if ans in ('refused', 'bad-op') else merge_writes([tuple(int(x) for x in w.split(':')) for w in ans.split()])
+            ctx.traces_validated += 1
+            ctx.dist['plan:%s' % ('refused' if model == 'refused' else 'accepted')] += 1
+            if impl != model and not (impl.startswith('refused') and model == 'refused'):
+                # a directory is refused for being a directory before the sector test: not part of the plan model
+                if not (impl == 'refused' and ' d:' not in req and False):
+                    ctx.disagree('S-inplace/plan', 'writes of modify_file_in_place(%s, %d bytes): impl=%s model=%s (%s)' % (path, new_len, impl[:160], model[:160], req[:120]), rp)
 
 
 def fnv(data):
@@ -78,7 +154,7 @@ def post(ctx, c, rep):
                 if bad_len is None or bad_len < 0 or -(-bad_len // 2048) == nsec:
                     continue
                 try:
-                    iso.modify_file_in_place(io.BytesIO(bytes(bad_len)), bad_len, p)
+                    modify_recorded(ctx, iso, bytes(bad_len), bad_len, p, rp)
                     ctx.violation('C17.refusal/%s/accepted' % what, 'replacing %d bytes (%d sectors) by %d bytes was accepted' % (old_len, nsec, bad_len), rp)
                 except Exception as e:  # noqa
                     if isoapi.exc_class(e) != 'invalidInput':
@@ -97,7 +173,7 @@ def post(ctx, c, rep):
                 ctx.violation('C17.refusal/image-changed', 'a refused in-place modification changed the image file', rp)
             # the real modification
             try:
-                iso.modify_file_in_place(io.BytesIO(new_data), new_len, p)
+                modify_recorded(ctx, iso, new_data, new_len, p, rp)
             except Exception as e:  # noqa
                 ctx.violation('C17.modify-raises/%s' % isoapi.exc_class(e), 'modify_file_in_place(%r, %d -> %d bytes) raised %r' % (p, old_len, new_len, e), rp)
                 return
@@ -202,7 +278,7 @@ def boot_cases(ctx):
                     g = pycdlib.PyCdlib()
                     g.open(path, 'r+b')
                     try:
-                        g.modify_file_in_place(io.BytesIO(new), new_len, '/BOOT.;1')
+                        modify_recorded(ctx, g, new, new_len, '/BOOT.;1', rp)
                     except Exception as e:  # noqa
                         ctx.violation(sig('modify-raises/%s' % isoapi.exc_class(e)), 'modify_file_in_place on an El Torito boot file (%s, %d -> %d bytes) raised %r' % (
                             label, old_len, new_len, e), rp)
